@@ -98,6 +98,48 @@ theorem C02_schedule_independent (p : Program) (cfg : Cfg) (H : BodyFn) (hwf : W
     heapOfLog p cfg H (run (graphOf p cfg) F ag1 ts1).log = heapOfLog p cfg H (run (graphOf p cfg) F ag2 ts2).log := by
   rw [C02_final p cfg H hwf hrf ag1 ts1 hq1, C02_final p cfg H hwf hrf ag2 ts2 hq2]
 
+/-! ### The write-back to the collection is asynchronous: the unrestricted statement is false of the code
+
+`P(0)`: `WRITE A <- NEW -> ddesc(8)`, `CTL C -> C Q(0)`;  `Q(0)`: `READ B <- ddesc(8)`, `CTL C <- C P(0)`.
+`Q(0)` is ordered after `P(0)` by a control dependency, the program is race free in the synchronous model, yet the real
+write-back is a command queued for the communication thread: when it is executed after `Q(0)`'s body (`deferredRun`),
+`Q(0)` reads the initial content 1008 of the tile, not what a sequential execution gives.  Replayed on the real runtime by
+checks/C02.py (corpus/C02/005-read-after-writeback.case; known finding).  `asyncSafeB` is the decidable condition that
+excludes such programs from `C02_final`'s model. -/
+
+def asyncEx : Program :=
+  { globals := [],
+    classes := [{ name := "P", locals := [.range ⟨.const 0, .const 0, .const 1⟩], isParam := [true], place := .var 0, prio := none,
+                  flows := [{ access := .write, ins := [⟨none, .new, none⟩], outs := [⟨none, .coll (.const 8), none⟩] },
+                            { access := .ctl, ins := [], outs := [⟨none, .task 1 1 [.one (.var 0)], none⟩] }] },
+                { name := "Q", locals := [.range ⟨.const 0, .const 0, .const 1⟩], isParam := [true], place := .var 0, prio := none,
+                  flows := [{ access := .read, ins := [⟨none, .coll (.const 8), none⟩], outs := [] },
+                            { access := .ctl, ins := [⟨none, .task 0 1 [.one (.var 0)], none⟩], outs := [] }] }] }
+
+def exH : BodyFn := fun cls f env ins => cls + 10 * f + 100 * env.length + ins.sum
+
+/-- The statement "every behaviour with deferred write-backs ends like the sequential execution", for all well-formed
+    race-free programs: FALSE of the code as it is. -/
+def C02_final_async_full : Prop :=
+  ∀ (p : Program) (cfg : Cfg) (H : BodyFn), WellFormed p = true → raceFreeB (graphOf p cfg) (nodeDs p cfg H) = true →
+    deferredRun p cfg H (List.range (allInstances p).length) = seqRun p cfg H
+
+set_option maxRecDepth 8000 in
+theorem async_writeback_witness :
+    WellFormed asyncEx = true ∧ raceFreeB (graphOf asyncEx {}) (nodeDs asyncEx {} exH) = true ∧
+    asyncSafeB (graphOf asyncEx {}) (nodeFlows asyncEx {}) = false ∧
+    deferredRun asyncEx {} exH [0, 1] (.obs 1 0) = 1008 ∧ seqRun asyncEx {} exH (.obs 1 0) = 100 ∧
+    deferredRun asyncEx {} exH [0, 1] (.tile 8) = seqRun asyncEx {} exH (.tile 8) := by decide
+
+theorem C02_final_async_full_false : ¬ C02_final_async_full := by
+  intro h
+  have h1 := h asyncEx {} exH async_writeback_witness.1 async_writeback_witness.2.1
+  have h2 : deferredRun asyncEx {} exH (List.range (allInstances asyncEx).length) (.obs 1 0) = seqRun asyncEx {} exH (.obs 1 0) := by
+    rw [h1]
+  have h3 : List.range (allInstances asyncEx).length = [0, 1] := by decide
+  rw [h3, async_writeback_witness.2.2.2.1, async_writeback_witness.2.2.2.2.1] at h2
+  exact absurd h2 (by decide)
+
 /-! ### Non-vacuity -/
 
 /-- `P(i)`, i = 0, 2: RW on tile i, passes its copy to `T(i)` (RW, in place), which names tile i as its final output -/
@@ -110,8 +152,6 @@ def ex : Program :=
                   flows := [{ access := .rw, ins := [⟨none, .task 0 0 [.one (.var 0)], none⟩],
                               outs := [⟨none, .coll (.var 0), none⟩] },
                             { access := .write, ins := [⟨none, .new, none⟩], outs := [⟨none, .coll (.bin .add (.var 0) (.const 1)), none⟩] }] }] }
-
-def exH : BodyFn := fun cls f env ins => cls + 10 * f + 100 * env.length + ins.sum
 
 example : WellFormed ex = true := by decide
 set_option maxRecDepth 8000 in
